@@ -576,6 +576,29 @@ def count_hooks(v):
     return n
 
 
+def hook_spans(v, acc):
+    if isinstance(v, (list, tuple)):
+        for x in v:
+            hook_spans(x, acc)
+        return
+    if not isinstance(v, dict) or is_lazy(v):
+        return
+    if v.get('_t') == 'Expr':
+        hp = hook_parts(v)
+        if hp is not None and not is_lazy(hp[1]) and hp[1]:
+            R = hp[1][0]['expr']
+            if not is_lazy(R) and isinstance(payload(R), dict) and 'span' in payload(R):
+                acc.append((kind(R), span_key(payload(R)['span'])))
+    for x in v.values():
+        hook_spans(x, acc)
+
+
+def duplicated_hook_sites(out_view):
+    acc = []
+    hook_spans(out_view, acc)
+    return len(acc) != len(set(acc))
+
+
 def check_C15_C12(out_view, status_view, nhooks):
     """status / telemetry agree with the hooks present in the output"""
     out = []
@@ -596,7 +619,13 @@ def check_C15_C12(out_view, status_view, nhooks):
         else:
             c = leaf_eq(cnt, nhooks)
             if c is not True:
-                out.append(Violation('C15', 'count/differs', neg(c), 'reported %s, %d hook call sites emitted' % (cnt, nhooks)))
+                if isinstance(cnt, int):
+                    role = 'count/over-reported' if cnt > nhooks else 'count/under-reported'
+                    if cnt < nhooks and duplicated_hook_sites(out_view):
+                        role += ':duplicated-hook-site'
+                else:
+                    role = 'count/differs'
+                out.append(Violation('C15', role, neg(c), 'reported %s, %d hook call sites emitted' % (cnt, nhooks)))
     return out
 
 
